@@ -118,6 +118,13 @@ def gen(rng, tier):
             t = nested(rng, n, b"1")
             meta = {"kind": "bigD-" + ("below" if first_too_deep(t, D) is None else "above"), "D": D, "text": t, "chunks": None, "flags": 0}
             out.append((line(D, 0, ["Z" + hx(t)]), meta))
+    # the limit configured through the file-descriptor API: -1 = default (32), anything else < 1 is refused
+    for dreq in (-1, 0, -2, -7, 1, 2, 3, 5, 33, 40):
+        deff = 32 if dreq == -1 else dreq
+        for n in sorted(set([0, 1, max(0, deff - 2), max(0, deff - 1), max(0, deff), deff + 1, 31, 32])):
+            t = nested(rng, n, rng.choice([b"[]", b"{}", b"[1]"])) if n > 0 else rng.choice([b"[]", b"{}", b"[1, 2]"])
+            meta = {"kind": "fd-depth", "D": 32, "text": t, "chunks": None, "flags": 0, "fd": dreq}
+            out.append((line(32, 0, ["D%d,%s" % (dreq, hx(t))]), meta))
     # hostile: only openers, very long
     for D in (1, 2, 32):
         for opener in (b"[", b'{"a":'):
@@ -132,6 +139,18 @@ def oracle(line_, meta, impl):
     if "LEAK" in impl:
         return ("leak", impl[-30:])
     D, t = meta["D"], meta["text"]
+    if "fd" in meta:
+        dreq = meta["fd"]
+        deff = 32 if dreq == -1 else dreq
+        got = impl.split(" ", 1)[1] if impl.startswith("fd ") else impl
+        if deff < 1:
+            return None if got == "-" else ("fd-depth-lt1-accepted", "json_object_from_fd_ex(depth=%d) returned a value" % dreq)
+        deep = first_too_deep(t, deff) is not None
+        if deep and got != "-":
+            return ("fd-accepts-beyond-limit", "from_fd_ex(depth=%d) accepted a document nested beyond the limit: %r" % (dreq, t[:60]))
+        if not deep and got == "-":
+            return ("fd-rejects-within-limit", "from_fd_ex(depth=%d) rejected a document within the limit: %r" % (dreq, t[:60]))
+        return None
     if D < 1:
         return None if impl == "NEWFAIL" else ("new-accepts-lt1", "tokener created with depth %d" % D)
     if impl == "NEWFAIL":
